@@ -19,10 +19,11 @@ CONSTANTS
   BodyPool,    \* Code values that can be added to the File
   FragPool,    \* Code values that can be rendered with RenderWithFile
   Preambles,   \* possible cgo preambles (sequences of comments)
+  FileMeta,    \* possible [headers, comments, canonical] settings (HeaderComment, PackageComment, CanonicalPath)
   MaxOps, MaxBody, MaxRenders
 
 VARIABLES
-  local, prefix, hints, imps, body, preamble,   \* the File
+  local, prefix, hints, imps, body, preamble, fmeta,   \* the File
   obs,        \* last observation
   bound,      \* history: path -> qualifier first observed in any output
   claims,     \* history: path -> set of names supplied with ImportName
@@ -30,19 +31,22 @@ VARIABLES
   nops, nrend,
   hist        \* the call history (exported to the replay harness; not part of the VIEW)
 
-vars == <<local, prefix, hints, imps, body, preamble, obs, bound, claims, anons, nops, nrend, hist>>
-view == <<local, prefix, hints, imps, body, preamble, obs, bound, claims, anons, nops, nrend>>
+vars == <<local, prefix, hints, imps, body, preamble, fmeta, obs, bound, claims, anons, nops, nrend, hist>>
+view == <<local, prefix, hints, imps, body, preamble, fmeta, obs, bound, claims, anons, nops, nrend>>
 
 Cfg == [local |-> local, prefix |-> prefix, hints |-> hints, paths |-> PathInfo]
-NoObs == [kind |-> "none", anons |-> {}, claims |-> <<>>, refs |-> {}, bare |-> {}, specs |-> {}, imps |-> <<>>, text |-> "", sepC |-> FALSE]
+NoObs == [kind |-> "none", pieces |-> <<>>, anons |-> {}, claims |-> <<>>, refs |-> {}, bare |-> {}, specs |-> {}, imps |-> <<>>, text |-> "", sepC |-> FALSE]
 
 Init ==
-  /\ local \in Locals /\ prefix \in PrefixPool /\ preamble \in Preambles
+  /\ local \in Locals /\ prefix \in PrefixPool /\ preamble \in Preambles /\ fmeta \in FileMeta
   /\ hints = <<>> /\ imps = <<>> /\ body = <<>>
   /\ obs = NoObs /\ bound = <<>> /\ claims = <<>> /\ anons = {}
   /\ nops = 0 /\ nrend = 0
   /\ hist = <<[a |-> "New", local |-> local, prefix |-> prefix,
-               preamble |-> [i \in DOMAIN preamble |-> preamble[i].v]]>>
+               preamble |-> [i \in DOMAIN preamble |-> preamble[i].v],
+               headers |-> [i \in DOMAIN fmeta.headers |-> fmeta.headers[i].v],
+               comments |-> [i \in DOMAIN fmeta.comments |-> fmeta.comments[i].v],
+               canonical |-> fmeta.canonical]>>
 
 Step == nops < MaxOps /\ nops' = nops + 1
 H(r) == hist' = Append(hist, r)
@@ -53,11 +57,11 @@ ImportName(p, n) ==
   /\ Step /\ H([a |-> "ImportName", p |-> p, n |-> n])
   /\ hints' = Put(hints, p, Def(n, FALSE))
   /\ claims' = IF p = "C" THEN claims ELSE Put(claims, p, Find2(claims, p) \cup {n})   \* nothing renames "C"
-  /\ UNCHANGED <<local, prefix, imps, body, preamble, obs, bound, anons, nrend>>
+  /\ UNCHANGED <<local, prefix, imps, body, preamble, fmeta, obs, bound, anons, nrend>>
 ImportAlias(p, n) ==
   /\ Step /\ H([a |-> "ImportAlias", p |-> p, n |-> n])
   /\ hints' = Put(hints, p, Def(n, TRUE))
-  /\ UNCHANGED <<local, prefix, imps, body, preamble, obs, bound, claims, anons, nrend>>
+  /\ UNCHANGED <<local, prefix, imps, body, preamble, fmeta, obs, bound, claims, anons, nrend>>
 \* C08 excludes Anon on an already referenced path
 Anon(p) ==
   /\ Step /\ H([a |-> "Anon", p |-> p, n |-> ""])
@@ -65,33 +69,34 @@ Anon(p) ==
   /\ p # local                      \* importing one's own package is not a use case
   /\ imps' = Put(imps, p, Def("_", TRUE))
   /\ anons' = anons \cup {p}
-  /\ UNCHANGED <<local, prefix, hints, body, preamble, obs, bound, claims, nrend>>
+  /\ UNCHANGED <<local, prefix, hints, body, preamble, fmeta, obs, bound, claims, nrend>>
 AddCode(c) ==
   /\ Step /\ Len(body) < MaxBody /\ H([a |-> "Add", p |-> "", n |-> "", tree |-> c])
   /\ body' = Append(body, c)
-  /\ UNCHANGED <<local, prefix, hints, imps, preamble, obs, bound, claims, anons, nrend>>
+  /\ UNCHANGED <<local, prefix, hints, imps, preamble, fmeta, obs, bound, claims, anons, nrend>>
 
 Bind(b, refs) == [p \in DOMAIN b \cup {r[1] : r \in refs} |->
                     IF p \in DOMAIN b THEN b[p] ELSE (CHOOSE r \in refs : r[1] = p)[2]]
 
 RenderFileStep ==
   /\ Step /\ nrend < MaxRenders /\ nrend' = nrend + 1 /\ H([a |-> "Render", p |-> "", n |-> ""])
-  /\ LET fc == [name |-> "main", canonicalq |-> "", headers |-> <<>>, comments |-> <<>>, preamble |-> preamble]
+  /\ LET fc == [name |-> "main", canonicalq |-> IF fmeta.canonical = "" THEN "" ELSE "\"" \o fmeta.canonical \o "\"",
+                headers |-> fmeta.headers, comments |-> fmeta.comments, preamble |-> preamble]
          r  == RenderFile(Cfg, fc, body, imps, Sorted)
          bodyPieces == FileBody(Cfg, body, imps)[1]
      IN /\ imps' = r[2]
-        /\ obs' = [kind |-> "file", anons |-> anons, claims |-> claims, refs |-> Refs(bodyPieces), bare |-> Bare(bodyPieces), specs |-> Specs(r[2]) \cup (IF Len(preamble) > 0 THEN {[path |-> "C", name |-> ""]} ELSE {}), imps |-> r[2],
+        /\ obs' = [kind |-> "file", pieces |-> r[1], anons |-> anons, claims |-> claims, refs |-> Refs(bodyPieces), bare |-> Bare(bodyPieces), specs |-> Specs(r[2]) \cup (IF Len(preamble) > 0 THEN {[path |-> "C", name |-> ""]} ELSE {}), imps |-> r[2],
                    text |-> Flat(r[1]), sepC |-> Len(preamble) > 0]
         /\ bound' = Bind(bound, Refs(bodyPieces) \cup {<<p, "">> : p \in Bare(bodyPieces)})
-  /\ UNCHANGED <<local, prefix, hints, body, preamble, claims, anons>>
+  /\ UNCHANGED <<local, prefix, hints, body, preamble, fmeta, claims, anons>>
 
 RenderFragStep(c) ==
   /\ Step /\ nrend < MaxRenders /\ nrend' = nrend + 1 /\ H([a |-> "Frag", p |-> "", n |-> "", tree |-> c])
   /\ LET r == RenderFragment(Cfg, c, imps)
      IN /\ imps' = r[2]
-        /\ obs' = [kind |-> "frag", anons |-> anons, claims |-> claims, refs |-> Refs(r[1]), bare |-> Bare(r[1]), specs |-> {}, imps |-> r[2], text |-> Flat(r[1]), sepC |-> FALSE]
+        /\ obs' = [kind |-> "frag", pieces |-> <<>>, anons |-> anons, claims |-> claims, refs |-> Refs(r[1]), bare |-> Bare(r[1]), specs |-> {}, imps |-> r[2], text |-> Flat(r[1]), sepC |-> FALSE]
         /\ bound' = Bind(bound, Refs(r[1]) \cup {<<p, "">> : p \in Bare(r[1])})
-  /\ UNCHANGED <<local, prefix, hints, body, preamble, claims, anons>>
+  /\ UNCHANGED <<local, prefix, hints, body, preamble, fmeta, claims, anons>>
 
 Next ==
   \/ \E p \in Paths, n \in HintNames \ {"."} : ImportName(p, n)
@@ -151,6 +156,19 @@ C19_Cgo ==
     /\ \A s \in obs.specs : s.path = "C" => s.name = ""
     /\ \A r \in obs.refs : r[1] = "C" => r[2] = "C"
     /\ (Len(preamble) > 0 => \E s \in obs.specs : s.path = "C")
+
+\* C15 (file level): package comments sit directly on the package clause, header comments are separated from them by
+\* a blank line, the canonical import path is a line comment on the package clause
+PkgIdx(ps) == CHOOSE i \in DOMAIN ps : ps[i] = T("package") /\ \A j \in 1..(i - 1) : ps[j] # T("package")
+C15_FileLevel ==
+  obs.kind = "file" =>
+    LET ps == obs.pieces  ip == PkgIdx(ps)
+        nc == Len(fmeta.comments)  nh == Len(fmeta.headers)
+    IN /\ \A k \in 1..nc : ps[ip - 2 * (nc - k) - 2].c \in {"lc", "bc", "rc"} /\ ps[ip - 2 * (nc - k) - 1] = NL   \* comment, newline, ..., package
+       /\ (nh > 0) => (ps[ip - 2 * nc - 1] = NL /\ ps[ip - 2 * nc - 2] = NL /\ ps[ip - 2 * nc - 3].c \in {"lc", "bc", "rc"})   \* blank line after the headers
+       /\ (nh = 0) => ip = 2 * nc + 1
+       /\ (fmeta.canonical # "") => (ps[ip + 3] = SP /\ ps[ip + 4].c = "lc" /\ ps[ip + 5] = NL)
+       /\ (fmeta.canonical = "") => ps[ip + 3] = NL
 
 \* C08: a path keeps the qualifier it was first seen with, and the File's import block declares it
 C08_StableNames ==
